@@ -1,4 +1,8 @@
 //@ item: integer/src/modular/mul.rs :: sqr_normalized
+// spinoff_prover + hidden valn/pw: the function is checked in its own solver instance with the recursive definitions
+// folded, so that a WRONG body ends in a failed obligation within seconds instead of exhausting the resource limit
+// (seeded change C13_r2_2: dropped conditional subtraction ran into `rlimit exceeded`).
+/*@ #[verifier::spinoff_prover] @*/
 pub(crate) fn sqr_normalized<'a>(
     ring: &ConstLargeDivisor,
     a: &[Word],
@@ -16,6 +20,7 @@ pub(crate) fn sqr_normalized<'a>(
         val(ret@) / ring_p(ring) == ((val(a@) / ring_p(ring)) * (val(a@) / ring_p(ring))) % modulus(ring),
 @*/
 {
+    /*@ hide(valn); hide(pw);   // value reasoning goes through the lemmas below @*/
     let modulus = ring.normalized_divisor.deref();
     let n = modulus.len();
     debug_assert!(a.len() == n);
@@ -40,6 +45,7 @@ pub(crate) fn sqr_normalized<'a>(
     if na == 0 {
         /*@ proof {
             lemma_valn_zero(product@, 0, len);
+            assert(valn(a@, 0) == 0 && valn(product@, 0) == 0) by { reveal(valn); }
             lemma_mm_zero(av, av, p, mv);
             lemma_mm_finish(av, av, mv, p, 0);
         } @*/
